@@ -1,25 +1,31 @@
-(** Pointer level of cache.c, primitives only: [remove_entry],
-    [add_entry_after], [add_entry_before] and [add_inflight] transcribed over
-    [next]/[prev] index functions, and the proof that on a well-formed
-    circular doubly linked list they perform exactly the list edit that
-    [CacheList] assumes (remove an element / insert next to an element).
+(** Pointer-level model of src/kdumpfile/cache.c.
 
-    This is *not* the full refinement of the composite operations (the
-    [split] bookkeeping of [reuse_cached_entry], [evict_*], [get_missed_entry],
-    [cache_insert], [cache_discard] is not modelled at this level); it
-    covers the pointer surgery itself.  The correspondence driver checks the
-    composite result on every step by following the real pointers. *)
-From Coq Require Import List Arith PeanoNat Lia Permutation.
-From KdV Require Import Cache.CacheList Cache.CacheLemmas.
+    [struct cache] as it is: the [next]/[prev] members of the [2*cap] entries
+    as index functions [nx]/[pv], [split], the four partition counters,
+    [dprobe], the in-flight head and count, the per-entry fields and the hit
+    counters; every helper transcribed statement by statement over them
+    ([add_entry_after/before], [remove_entry], [add_inflight],
+    [reuse_cached_entry], [evict_probe], [evict_prec], [evict_entry],
+    [reclaim_data] with the repaired walk, [get_missed_entry],
+    [reuse_ghost_entry], [get_ghost_or_missed_entry], [get_inflight_entry],
+    [cache_get_entry_noref], [cache_get_entry], [cache_insert],
+    [cache_put_entry], [cache_discard], [cache_flush], [cache_alloc]).
+    Loops [while (n--) idx = ce[idx].next] are recursion on [n].
+
+    [struct cache_search]: [zprec]/[zprobe] are [option]s (used unset =
+    [Fault]); the positional members are plain indices: every path assigns
+    them before it reads them.  Decrementing a counter that is 0 (C: wraps to
+    UINT_MAX) is [Fault CounterUnderflow], decrementing a zero reference
+    count [Fault RefUnderflow].
+
+    The client (handles [rpend]/[rplain], ghost [rcontent]) is the one of
+    [CacheList].  [rwalk]/[iwalk] read the two circular lists the way the
+    correspondence driver does (follow [next] from [ce[split].next] /
+    from [inflight]); [RingRefines.v] proves that this model refines the
+    list-level model under these readings.  No proofs in this file. *)
+From Coq Require Import NArith List Bool Arith PeanoNat.
+From KdV Require Import Cache.CacheList.
 Import ListNotations.
-
-(** A circular list [l] (in [next] order, any rotation) is represented by
-    [nx]/[pv] when [l] has no repetition and every element points to its
-    cyclic successor / predecessor. *)
-Definition succs (l : list nat) : list (nat * nat) := combine l (tl l ++ firstn 1 l).
-
-Definition linked (nx pv : nat -> nat) (l : list nat) : Prop :=
-  NoDup l /\ forall x y, In (x, y) (succs l) -> nx x = y /\ pv y = x.
 
 (* static void remove_entry(cache, entry):
      next = &ce[entry->next]; next->prev = entry->prev;
@@ -43,273 +49,466 @@ Definition add_entry_before (nx pv : nat -> nat) (e ins : nat) : (nat -> nat) * 
   let p := pv ins in
   (upd (upd nx e (nx p)) p e, upd (upd pv e p) ins e).
 
-(** successor pairs of a list written with its first element exposed *)
-Lemma succs_cons a m : succs (a :: m) = combine (a :: m) (m ++ [a]).
-Proof. reflexivity. Qed.
+Record rst := mkrst {
+  nx : nat -> nat;
+  pv : nat -> nat;
+  split : nat;
+  nprec : nat;
+  ngprec : nat;
+  nprobe : nat;
+  ngprobe : nat;
+  rdprobe : nat;
+  rcap : nat;
+  inflight : nat;
+  ninflight : nat;
+  rkey : nat -> N;
+  rref : nat -> nat;
+  rdata : nat -> option nat;
+  rest : nat -> estate;
+  rhits : N;
+  rmisses : N;
+  rpend : list nat;
+  rplain : list nat;
+  rcontent : nat -> option N }.
 
-Lemma combine_snoc (l : list nat) : forall (l' : list nat) x y, length l = length l' ->
-  combine (l ++ [x]) (l' ++ [y]) = combine l l' ++ [(x, y)].
-Proof.
-  induction l as [|a l IH]; intros [|b l'] x y Hlen; cbn in *; try discriminate; [reflexivity|].
-  rewrite IH by lia. reflexivity.
-Qed.
+Definition rset_nx (v : nat -> nat) (r : rst) : rst :=
+  mkrst v (pv r) (split r) (nprec r) (ngprec r) (nprobe r) (ngprobe r) (rdprobe r) (rcap r) (inflight r) (ninflight r) (rkey r) (rref r) (rdata r) (rest r) (rhits r) (rmisses r) (rpend r) (rplain r) (rcontent r).
+Definition rset_pv (v : nat -> nat) (r : rst) : rst :=
+  mkrst (nx r) v (split r) (nprec r) (ngprec r) (nprobe r) (ngprobe r) (rdprobe r) (rcap r) (inflight r) (ninflight r) (rkey r) (rref r) (rdata r) (rest r) (rhits r) (rmisses r) (rpend r) (rplain r) (rcontent r).
+Definition rset_split (v : nat) (r : rst) : rst :=
+  mkrst (nx r) (pv r) v (nprec r) (ngprec r) (nprobe r) (ngprobe r) (rdprobe r) (rcap r) (inflight r) (ninflight r) (rkey r) (rref r) (rdata r) (rest r) (rhits r) (rmisses r) (rpend r) (rplain r) (rcontent r).
+Definition rset_nprec (v : nat) (r : rst) : rst :=
+  mkrst (nx r) (pv r) (split r) v (ngprec r) (nprobe r) (ngprobe r) (rdprobe r) (rcap r) (inflight r) (ninflight r) (rkey r) (rref r) (rdata r) (rest r) (rhits r) (rmisses r) (rpend r) (rplain r) (rcontent r).
+Definition rset_ngprec (v : nat) (r : rst) : rst :=
+  mkrst (nx r) (pv r) (split r) (nprec r) v (nprobe r) (ngprobe r) (rdprobe r) (rcap r) (inflight r) (ninflight r) (rkey r) (rref r) (rdata r) (rest r) (rhits r) (rmisses r) (rpend r) (rplain r) (rcontent r).
+Definition rset_nprobe (v : nat) (r : rst) : rst :=
+  mkrst (nx r) (pv r) (split r) (nprec r) (ngprec r) v (ngprobe r) (rdprobe r) (rcap r) (inflight r) (ninflight r) (rkey r) (rref r) (rdata r) (rest r) (rhits r) (rmisses r) (rpend r) (rplain r) (rcontent r).
+Definition rset_ngprobe (v : nat) (r : rst) : rst :=
+  mkrst (nx r) (pv r) (split r) (nprec r) (ngprec r) (nprobe r) v (rdprobe r) (rcap r) (inflight r) (ninflight r) (rkey r) (rref r) (rdata r) (rest r) (rhits r) (rmisses r) (rpend r) (rplain r) (rcontent r).
+Definition rset_dprobe (v : nat) (r : rst) : rst :=
+  mkrst (nx r) (pv r) (split r) (nprec r) (ngprec r) (nprobe r) (ngprobe r) v (rcap r) (inflight r) (ninflight r) (rkey r) (rref r) (rdata r) (rest r) (rhits r) (rmisses r) (rpend r) (rplain r) (rcontent r).
+Definition rset_inflight (v : nat) (r : rst) : rst :=
+  mkrst (nx r) (pv r) (split r) (nprec r) (ngprec r) (nprobe r) (ngprobe r) (rdprobe r) (rcap r) v (ninflight r) (rkey r) (rref r) (rdata r) (rest r) (rhits r) (rmisses r) (rpend r) (rplain r) (rcontent r).
+Definition rset_ninflight (v : nat) (r : rst) : rst :=
+  mkrst (nx r) (pv r) (split r) (nprec r) (ngprec r) (nprobe r) (ngprobe r) (rdprobe r) (rcap r) (inflight r) v (rkey r) (rref r) (rdata r) (rest r) (rhits r) (rmisses r) (rpend r) (rplain r) (rcontent r).
+Definition rset_key (v : nat -> N) (r : rst) : rst :=
+  mkrst (nx r) (pv r) (split r) (nprec r) (ngprec r) (nprobe r) (ngprobe r) (rdprobe r) (rcap r) (inflight r) (ninflight r) v (rref r) (rdata r) (rest r) (rhits r) (rmisses r) (rpend r) (rplain r) (rcontent r).
+Definition rset_ref (v : nat -> nat) (r : rst) : rst :=
+  mkrst (nx r) (pv r) (split r) (nprec r) (ngprec r) (nprobe r) (ngprobe r) (rdprobe r) (rcap r) (inflight r) (ninflight r) (rkey r) v (rdata r) (rest r) (rhits r) (rmisses r) (rpend r) (rplain r) (rcontent r).
+Definition rset_data (v : nat -> option nat) (r : rst) : rst :=
+  mkrst (nx r) (pv r) (split r) (nprec r) (ngprec r) (nprobe r) (ngprobe r) (rdprobe r) (rcap r) (inflight r) (ninflight r) (rkey r) (rref r) v (rest r) (rhits r) (rmisses r) (rpend r) (rplain r) (rcontent r).
+Definition rset_est (v : nat -> estate) (r : rst) : rst :=
+  mkrst (nx r) (pv r) (split r) (nprec r) (ngprec r) (nprobe r) (ngprobe r) (rdprobe r) (rcap r) (inflight r) (ninflight r) (rkey r) (rref r) (rdata r) v (rhits r) (rmisses r) (rpend r) (rplain r) (rcontent r).
+Definition rset_hits (v : N) (r : rst) : rst :=
+  mkrst (nx r) (pv r) (split r) (nprec r) (ngprec r) (nprobe r) (ngprobe r) (rdprobe r) (rcap r) (inflight r) (ninflight r) (rkey r) (rref r) (rdata r) (rest r) v (rmisses r) (rpend r) (rplain r) (rcontent r).
+Definition rset_misses (v : N) (r : rst) : rst :=
+  mkrst (nx r) (pv r) (split r) (nprec r) (ngprec r) (nprobe r) (ngprobe r) (rdprobe r) (rcap r) (inflight r) (ninflight r) (rkey r) (rref r) (rdata r) (rest r) (rhits r) v (rpend r) (rplain r) (rcontent r).
+Definition rset_pend (v : list nat) (r : rst) : rst :=
+  mkrst (nx r) (pv r) (split r) (nprec r) (ngprec r) (nprobe r) (ngprobe r) (rdprobe r) (rcap r) (inflight r) (ninflight r) (rkey r) (rref r) (rdata r) (rest r) (rhits r) (rmisses r) v (rplain r) (rcontent r).
+Definition rset_plain (v : list nat) (r : rst) : rst :=
+  mkrst (nx r) (pv r) (split r) (nprec r) (ngprec r) (nprobe r) (ngprobe r) (rdprobe r) (rcap r) (inflight r) (ninflight r) (rkey r) (rref r) (rdata r) (rest r) (rhits r) (rmisses r) (rpend r) v (rcontent r).
+Definition rset_content (v : nat -> option N) (r : rst) : rst :=
+  mkrst (nx r) (pv r) (split r) (nprec r) (ngprec r) (nprobe r) (ngprobe r) (rdprobe r) (rcap r) (inflight r) (ninflight r) (rkey r) (rref r) (rdata r) (rest r) (rhits r) (rmisses r) (rpend r) (rplain r) v.
 
-(* the pairs of [a :: m]: the consecutive pairs inside, then the closing pair *)
-Fixpoint chain (a : nat) (m : list nat) : list (nat * nat) :=
-  match m with
-  | [] => []
-  | b :: m' => (a, b) :: chain b m'
+Definition r_remove (r : rst) (e : nat) : rst :=
+  rset_pv (snd (remove_entry (nx r) (pv r) e)) (rset_nx (fst (remove_entry (nx r) (pv r) e)) r).
+
+Definition r_add_after (r : rst) (e ins : nat) : rst :=
+  rset_pv (snd (add_entry_after (nx r) (pv r) e ins))
+          (rset_nx (fst (add_entry_after (nx r) (pv r) e ins)) r).
+
+Definition r_add_before (r : rst) (e ins : nat) : rst :=
+  rset_pv (snd (add_entry_before (nx r) (pv r) e ins))
+          (rset_nx (fst (add_entry_before (nx r) (pv r) e ins)) r).
+
+(* while (n--) idx = f(idx) *)
+Fixpoint chase (f : nat -> nat) (n : nat) (idx : nat) : nat :=
+  match n with
+  | 0 => idx
+  | S n' => chase f n' (f idx)
   end.
 
-Lemma last_cons (m : list nat) : forall b a, last (b :: m) a = last m b.
-Proof.
-  induction m as [|c m IH]; intros b a; [reflexivity|].
-  change (last (b :: c :: m) a) with (last (c :: m) a). rewrite !IH. reflexivity.
-Qed.
+(* the entries visited by such a loop *)
+Fixpoint walk (f : nat -> nat) (n : nat) (idx : nat) : list nat :=
+  match n with
+  | 0 => []
+  | S n' => idx :: walk f n' (f idx)
+  end.
 
-Lemma combine_chain m : forall a c,
-  combine (a :: m) (m ++ [c]) = chain a m ++ [(last m a, c)].
-Proof.
-  induction m as [|b m IH]; intros a c; [reflexivity|].
-  change (combine (a :: b :: m) ((b :: m) ++ [c])) with ((a, b) :: combine (b :: m) (m ++ [c])).
-  rewrite IH. cbn [chain app]. rewrite last_cons. reflexivity.
-Qed.
+(* the main ring in next order from ce[split].next, the in-flight ring from
+   cache->inflight: what the driver prints, and the abstraction function *)
+Definition rwalk (r : rst) : list nat :=
+  walk (nx r) (2 * rcap r - ninflight r) (nx r (split r)).
+Definition iwalk (r : rst) : list nat := walk (nx r) (ninflight r) (inflight r).
 
-Lemma succs_chain a m : succs (a :: m) = chain a m ++ [(last m a, a)].
-Proof. rewrite succs_cons. apply combine_chain. Qed.
+(* add_inflight:
+     if (cache->ninflight++) add_entry_before(cache, entry, idx, cache->inflight);
+     else cache->inflight = entry->next = entry->prev = idx; *)
+Definition r_add_inflight (r : rst) (e : nat) : rst :=
+  if ninflight r =? 0
+  then rset_inflight e (rset_pv (upd (pv r) e e) (rset_nx (upd (nx r) e e) (rset_ninflight 1 r)))
+  else r_add_before (rset_ninflight (S (ninflight r)) r) e (inflight r).
 
-Lemma chain_in a m x y : In (x, y) (chain a m) -> In y m /\ (x = a \/ In x m).
-Proof.
-  revert a. induction m as [|b m IH]; intros a Hin; cbn in Hin; [contradiction|].
-  destruct Hin as [Heq|Hin].
-  - inversion Heq; subst. split; [left; reflexivity|left; reflexivity].
-  - apply IH in Hin. destruct Hin as [Hy Hx]. split; [right; exact Hy|].
-    right. destruct Hx as [->|Hx]; [left; reflexivity|right; exact Hx].
-Qed.
+(* reuse_cached_entry:
+     if (cache->split != idx && cache->split != entry->prev) {
+       remove_entry(cache, entry); add_entry_after(cache, entry, idx, cache->split); }
+     cache->split = entry->prev;  ++cache->hits.number; *)
+Definition r_reuse_cached (r : rst) (e : nat) : rst :=
+  let r1 := if negb (split r =? e) && negb (split r =? pv r e)
+            then r_add_after (r_remove r e) e (split r) else r in
+  rset_hits (rhits r1 + 1)%N (rset_split (pv r1 e) r1).
 
-Lemma chain_app a m1 b m2 : chain a (m1 ++ b :: m2) = chain a m1 ++ (last m1 a, b) :: chain b m2.
-Proof.
-  revert a. induction m1 as [|c m1 IH]; intros a; [reflexivity|].
-  cbn [app chain]. rewrite IH. rewrite last_cons. reflexivity.
-Qed.
+(** struct cache_search *)
+Record rsearch := mkrsearch {
+  c_gprec : nat; c_eprec : nat; c_zprec : option nat; c_nzprec : nat;
+  c_gprobe : nat; c_eprobe : nat; c_zprobe : option nat; c_nzprobe : nat }.
 
-(** rotation does not matter *)
-Lemma succs_rot a m : Permutation (succs (a :: m)) (succs (m ++ [a])).
-Proof.
-  destruct m as [|b m]; [reflexivity|].
-  rewrite succs_chain. change ((b :: m) ++ [a]) with (b :: (m ++ [a])). rewrite succs_chain.
-  rewrite chain_app, last_last, last_cons. cbn [chain app].
-  apply Permutation_cons_append.
-Qed.
+Definition cs_set_eprec (v : nat) (c : rsearch) : rsearch :=
+  mkrsearch (c_gprec c) v (c_zprec c) (c_nzprec c) (c_gprobe c) (c_eprobe c) (c_zprobe c) (c_nzprobe c).
+Definition cs_set_eprobe (v : nat) (c : rsearch) : rsearch :=
+  mkrsearch (c_gprec c) (c_eprec c) (c_zprec c) (c_nzprec c) (c_gprobe c) v (c_zprobe c) (c_nzprobe c).
 
-Lemma linked_rot nx pv a m : linked nx pv (a :: m) <-> linked nx pv (m ++ [a]).
-Proof.
-  unfold linked. split; intros [Hnd Hl]; split.
-  - apply (Permutation_NoDup (l := a :: m)); [|exact Hnd].
-    change (a :: m) with ([a] ++ m). apply Permutation_app_comm.
-  - intros x y Hin. apply Hl. apply (Permutation_in _ (Permutation_sym (succs_rot a m))). exact Hin.
-  - apply (Permutation_NoDup (l := m ++ [a])); [|exact Hnd].
-    change (a :: m) with ([a] ++ m). apply Permutation_app_comm.
-  - intros x y Hin. apply Hl. apply (Permutation_in _ (succs_rot a m)). exact Hin.
-Qed.
+Inductive rfault := RF (f : fault) | CounterUnderflow.
+Inductive rres (A : Type) := ROk (a : A) | RFault (f : rfault).
+Arguments ROk {A}. Arguments RFault {A}.
 
-Lemma linked_rot_app nx pv l1 l2 : linked nx pv (l1 ++ l2) <-> linked nx pv (l2 ++ l1).
-Proof.
-  revert l2. induction l1 as [|a l1 IH]; intros l2.
-  - rewrite app_nil_r. reflexivity.
-  - cbn [app]. rewrite linked_rot. rewrite <- app_assoc. rewrite IH.
-    rewrite <- app_assoc. reflexivity.
-Qed.
+(* evict_probe:
+     entry = &ce[cs->zprobe];
+     if (entry->prev != cs->gprobe) {
+       if (cs->zprobe == cache->split) cache->split = entry->prev;
+       remove_entry(cache, entry); add_entry_after(cache, entry, cs->zprobe, cs->gprobe); }
+     --cache->nprobe; ++cache->ngprobe; *)
+Definition r_evict_probe (r : rst) (cs : rsearch) : rres (rst * nat) :=
+  match c_zprobe cs with
+  | None => RFault (RF UnsetZprobe)
+  | Some e =>
+      let r1 := if negb (pv r e =? c_gprobe cs)
+                then let r0 := if e =? split r then rset_split (pv r e) r else r in
+                     r_add_after (r_remove r0 e) e (c_gprobe cs)
+                else r in
+      match nprobe r1 with
+      | 0 => RFault CounterUnderflow
+      | S n => ROk (rset_ngprobe (S (ngprobe r1)) (rset_nprobe n r1), e)
+      end
+  end.
 
-(** what a well-formed ring says about the neighbours of its first element *)
-Lemma linked_head nx pv e b m : linked nx pv (e :: b :: m) ->
-  nx e = b /\ pv e = last m b /\ pv b = e /\ nx (last m b) = e.
-Proof.
-  intros [_ Hl]. rewrite succs_chain in Hl.
-  destruct (Hl e b) as [H1 H2]; [apply in_or_app; left; left; reflexivity|].
-  destruct (Hl (last (b :: m) e) e) as [H3 H4]; [apply in_or_app; right; left; reflexivity|].
-  replace (last (b :: m) e) with (last m b) in * by (symmetry; apply last_cons).
-  auto.
-Qed.
+(* evict_prec:
+     entry = &ce[cs->zprec];
+     if (entry->next != cs->gprec) {
+       remove_entry(cache, entry); add_entry_before(cache, entry, cs->zprec, cs->gprec); }
+     --cache->nprec; ++cache->ngprec; *)
+Definition r_evict_prec (r : rst) (cs : rsearch) : rres (rst * nat) :=
+  match c_zprec cs with
+  | None => RFault (RF UnsetZprec)
+  | Some e =>
+      let r1 := if negb (nx r e =? c_gprec cs)
+                then r_add_before (r_remove r e) e (c_gprec cs)
+                else r in
+      match nprec r1 with
+      | 0 => RFault CounterUnderflow
+      | S n => ROk (rset_ngprec (S (ngprec r1)) (rset_nprec n r1), e)
+      end
+  end.
 
-Lemma last_in (m : list nat) b : In (last m b) (b :: m).
-Proof.
-  revert b. induction m as [|c m IH]; intros b; [left; reflexivity|].
-  right. replace (last (c :: m) b) with (last m c) by (symmetry; apply last_cons). apply IH.
-Qed.
+(* evict_entry (the cleanup callback is recorded by the callers) *)
+Definition r_evict_entry (r : rst) (cs : rsearch) (bias : nat) : rres (rst * nat) :=
+  if negb (c_nzprobe cs =? 0) &&
+     ((c_nzprec cs =? 0) || (rdprobe r <? nprobe r + bias))
+  then r_evict_probe r cs
+  else r_evict_prec r cs.
 
-Lemma chain_fst_not_last a m x y : NoDup (a :: m) -> In (x, y) (chain a m) -> x <> last m a.
-Proof.
-  revert a. induction m as [|b m IH]; intros a Hnd Hin; cbn in Hin; [contradiction|].
-  replace (last (b :: m) a) with (last m b) by (symmetry; apply last_cons).
-  pose proof (proj1 (NoDup_cons_iff _ _) Hnd) as [Hnotin Hnd'].
-  destruct Hin as [Heq|Hin].
-  - inversion Heq; subst. intros Heq'. apply Hnotin. rewrite Heq'. apply last_in.
-  - apply IH; assumption.
-Qed.
+(* reclaim_data, as repaired:
+     if (nprec + nprobe + ninflight < cap) {
+       eprobe = cs->gprobe;
+       n = ngprobe + cap - 1 - (nprec + nprobe + ninflight);
+       while (n--) eprobe = ce[eprobe].prev;
+       entry = &ce[eprobe];
+     } else entry = evict_entry(cache, cs, 0);
+     data = entry->data; entry->data = NULL; return data; *)
+Definition r_reclaim (r : rst) (cs : rsearch) : rres (rst * option nat * list (nat * nat)) :=
+  let busy := nprec r + nprobe r + ninflight r in
+  if busy <? rcap r then
+    let e := chase (pv r) (ngprobe r + rcap r - 1 - busy) (c_gprobe cs) in
+    ROk (rset_data (upd (rdata r) e None) r, rdata r e, [])
+  else
+    match r_evict_entry r cs 0 with
+    | RFault f => RFault f
+    | ROk (r1, e) => ROk (rset_data (upd (rdata r1) e None) r1, rdata r1 e, [(e, rref r1 e)])
+    end.
 
-(** [remove_entry] unlinks the element: the ring [l1 ++ e :: l2] becomes
-    [l1 ++ l2] (at least one other element remains; the callers of cache.c
-    never empty the main ring, and [cache_insert]/[cache_discard] handle the
-    in-flight ring through [cache->inflight] and [ninflight]) *)
-Theorem remove_entry_linked nx pv l1 e l2 :
-  linked nx pv (l1 ++ e :: l2) -> l1 ++ l2 <> [] ->
-  linked (fst (remove_entry nx pv e)) (snd (remove_entry nx pv e)) (l1 ++ l2).
-Proof.
-  intros Hl Hne. unfold remove_entry. cbn [fst snd].
-  apply linked_rot_app in Hl. cbn [app] in Hl.
-  apply linked_rot_app. set (m := l2 ++ l1) in *.
-  assert (Hm : m <> []).
-  { subst m. intros Heq. apply app_eq_nil in Heq. destruct Heq; subst. apply Hne. reflexivity. }
-  destruct m as [|b m']; [congruence|]. clear Hne Hm.
-  destruct (linked_head _ _ _ _ _ Hl) as (Hn & Hp & _ & _).
-  rewrite Hn, Hp. destruct Hl as [Hnd Hl]. pose proof (proj1 (NoDup_cons_iff _ _) Hnd) as [Hnotin Hnd'].
-  split; [exact Hnd'|].
-  intros x y Hin. rewrite succs_chain in Hin. rewrite succs_chain in Hl.
-  apply in_app_or in Hin. destruct Hin as [Hin|[Heq|[]]].
-  - destruct (Hl x y) as [H1 H2].
-    { apply in_or_app. left. cbn [chain]. right. exact Hin. }
-    pose proof (chain_fst_not_last _ _ _ _ Hnd' Hin) as Hxl.
-    apply chain_in in Hin. destruct Hin as [Hy _].
-    assert (Hyb : y <> b).
-    { pose proof (proj1 (NoDup_cons_iff _ _) Hnd') as [Hb _]. intros ->. contradiction. }
-    rewrite !upd_neq by assumption. split; assumption.
-  - inversion Heq; subst. split; apply upd_eq.
-Qed.
+(* reuse_ghost_entry:
+     if (cache->split == idx) cache->split = entry->prev;
+     remove_entry(cache, entry); add_inflight(cache, entry, idx);
+     entry->state = cs_precious; *)
+Definition r_reuse_ghost (r : rst) (e : nat) : rst :=
+  let r0 := if split r =? e then rset_split (pv r e) r else r in
+  let r1 := r_add_inflight (r_remove r0 e) e in
+  rset_est (upd (rest r1) e SPrec) r1.
 
-(** [add_entry_after] links [e] right after [x] *)
-Theorem add_entry_after_linked nx pv l1 x l2 e :
-  linked nx pv (l1 ++ x :: l2) -> ~ In e (l1 ++ x :: l2) ->
-  linked (fst (add_entry_after nx pv e x)) (snd (add_entry_after nx pv e x))
-         (l1 ++ x :: e :: l2).
-Proof.
-  intros Hl Hni. unfold add_entry_after. cbn [fst snd].
-  apply linked_rot_app in Hl. cbn [app] in Hl.
-  apply linked_rot_app. cbn [app].
-  assert (Hni' : ~ In e (x :: l2 ++ l1)).
-  { intros Hin. apply Hni. apply in_or_app. cbn in Hin. cbn.
-    destruct Hin as [->|Hin]; [right; left; reflexivity|].
-    apply in_app_or in Hin. tauto. }
-  set (m := l2 ++ l1) in *. clearbody m. clear Hni l1 l2.
-  assert (Hex : e <> x) by (intros ->; apply Hni'; left; reflexivity).
-  destruct m as [|b m'].
-  - (* the ring was the single element x *)
-    destruct Hl as [Hnd Hl]. destruct (Hl x x) as [Hnx Hpx]; [left; reflexivity|].
-    rewrite Hnx. split.
-    + constructor; [intros [Heq|[]]; congruence|constructor; [intros []|constructor]].
-    + intros u v Hin. cbn in Hin. destruct Hin as [Heq|[Heq|[]]]; injection Heq as <- <-.
-      * split; [apply upd_eq|]. rewrite upd_neq by assumption. rewrite upd_eq. exact Hpx.
-      * split; [|apply upd_eq]. rewrite upd_neq by assumption. apply upd_eq.
-  - destruct (linked_head _ _ _ _ _ Hl) as (Hn & Hp & Hpb & Hnl).
-    rewrite Hn. destruct Hl as [Hnd Hl].
-    assert (Heb : e <> b) by (intros ->; apply Hni'; right; left; reflexivity).
-    pose proof (proj1 (NoDup_cons_iff _ _) Hnd) as [Hxnotin Hnd'].
-    split.
-    + constructor; [|constructor; [|exact Hnd']].
-      * intros [Heq|Hin]; [congruence|contradiction].
-      * intros Hin. apply Hni'. right. exact Hin.
-    + intros u v Hin. rewrite succs_chain in Hin. rewrite succs_chain in Hl.
-      rewrite !last_cons in Hin. cbn [chain] in Hin.
-      apply in_app_or in Hin. destruct Hin as [[Heq|[Heq|Hin]]|[Heq|[]]].
-      * injection Heq as <- <-. split; [apply upd_eq|].
-        rewrite upd_neq by assumption. rewrite upd_eq. exact Hpb.
-      * injection Heq as <- <-. split.
-        -- rewrite upd_neq by assumption. apply upd_eq.
-        -- apply upd_eq.
-      * destruct (Hl u v) as [H1 H2].
-        { apply in_or_app. left. cbn [chain]. right. exact Hin. }
-        apply chain_in in Hin. destruct Hin as [Hv Hu].
-        assert (Hux : u <> x) by (intros ->; apply Hxnotin; destruct Hu as [->|Hu]; [left; reflexivity|right; exact Hu]).
-        assert (Hue : u <> e) by (intros ->; apply Hni'; right; destruct Hu as [->|Hu]; [left; reflexivity|right; exact Hu]).
-        assert (Hvb : v <> b) by (pose proof (proj1 (NoDup_cons_iff _ _) Hnd') as [Hb _]; intros ->; contradiction).
-        assert (Hve : v <> e) by (intros ->; apply Hni'; right; right; exact Hv).
-        rewrite !upd_neq by assumption. split; assumption.
-      * injection Heq as <- <-.
-        pose proof (last_in m' b) as Hlin.
-        assert (Hlx : last m' b <> x) by (intros Heq'; apply Hxnotin; rewrite <- Heq'; exact Hlin).
-        assert (Hle : last m' b <> e) by (intros Heq'; apply Hni'; right; rewrite <- Heq'; exact Hlin).
-        assert (Hvb : x <> b) by (intros ->; apply Hxnotin; left; reflexivity).
-        rewrite !upd_neq by (assumption || congruence). split; [exact Hnl|exact Hp].
-Qed.
+(* get_missed_entry *)
+Definition r_get_missed (r : rst) (k : N) (cs : rsearch)
+  : rres (rst * nat * list (nat * nat)) :=
+  let idx0 := c_eprobe cs in
+  let '(r1, idx) :=
+    if nx r idx0 =? c_eprec cs then
+      if negb (ngprobe r =? 0) then (rset_ngprobe (ngprobe r - 1) r, nx r idx0)
+      else if negb (ngprec r =? 0) then (rset_ngprec (ngprec r - 1) r, idx0)
+      else (r, idx0)
+    else (r, idx0) in
+  let fill :=
+    match rdata r1 idx with
+    | Some _ => ROk (r1, [])
+    | None =>
+        match r_evict_entry r1 cs 1 with
+        | RFault f => RFault f
+        | ROk (r2, v) =>
+            ROk (rset_data (upd (upd (rdata r2) idx (rdata r2 v)) v None) r2, [(v, rref r2 v)])
+        end
+    end in
+  match fill with
+  | RFault f => RFault f
+  | ROk (r3, ev) =>
+      let r4 := if split r3 =? idx then rset_split (pv r3 idx) r3 else r3 in
+      let r5 := r_add_inflight (r_remove r4 idx) idx in
+      ROk (rset_est (upd (rest r5) idx SProbe) (rset_key (upd (rkey r5) idx k) r5), idx, ev)
+  end.
 
-(** [add_entry_before] links [e] right before [x] *)
-Theorem add_entry_before_linked nx pv l1 x l2 e :
-  linked nx pv (l1 ++ x :: l2) -> ~ In e (l1 ++ x :: l2) ->
-  linked (fst (add_entry_before nx pv e x)) (snd (add_entry_before nx pv e x))
-         (l1 ++ e :: x :: l2).
-Proof.
-  intros Hl Hni. unfold add_entry_before. cbn [fst snd].
-  apply linked_rot_app in Hl. cbn [app] in Hl.
-  (* target: l1 ++ e :: x :: l2  ~  x :: l2 ++ l1 ++ [e] *)
-  replace (l1 ++ e :: x :: l2) with ((l1 ++ [e]) ++ x :: l2) by (rewrite <- app_assoc; reflexivity).
-  apply linked_rot_app. cbn [app]. rewrite app_assoc.
-  assert (Hni' : ~ In e (x :: l2 ++ l1)).
-  { intros Hin. apply Hni. apply in_or_app. cbn in Hin. cbn.
-    destruct Hin as [->|Hin]; [right; left; reflexivity|].
-    apply in_app_or in Hin. tauto. }
-  set (m := l2 ++ l1) in *. clearbody m. clear Hni l1 l2.
-  assert (Hex : e <> x) by (intros ->; apply Hni'; left; reflexivity).
-  destruct m as [|b m'].
-  - destruct Hl as [Hnd Hl]. destruct (Hl x x) as [Hnx Hpx]; [left; reflexivity|].
-    rewrite Hpx, Hnx. split.
-    + constructor; [intros [Heq|[]]; congruence|constructor; [intros []|constructor]].
-    + intros u v Hin. cbn in Hin. destruct Hin as [Heq|[Heq|[]]]; injection Heq as <- <-.
-      * split; [apply upd_eq|]. rewrite upd_neq by assumption. apply upd_eq.
-      * split; [|apply upd_eq]. rewrite upd_neq by assumption. apply upd_eq.
-  - destruct (linked_head _ _ _ _ _ Hl) as (Hn & Hp & Hpb & Hnl).
-    rewrite Hp, Hnl. destruct Hl as [Hnd Hl].
-    pose proof (proj1 (NoDup_cons_iff _ _) Hnd) as [Hxnotin Hnd'].
-    pose proof (last_in m' b) as Hlin.
-    assert (Hlx : last m' b <> x) by (intros Heq'; apply Hxnotin; rewrite <- Heq'; exact Hlin).
-    assert (Hle : last m' b <> e) by (intros Heq'; apply Hni'; right; rewrite <- Heq'; exact Hlin).
-    split.
-    + constructor.
-      * intros Hin. apply in_app_or in Hin. destruct Hin as [Hin|[Heq|[]]]; [contradiction|congruence].
-      * apply (Permutation_NoDup (l := e :: b :: m')); [apply Permutation_cons_append|].
-        constructor; [|exact Hnd']. intros Hin. apply Hni'. right. exact Hin.
-    + intros u v Hin. rewrite succs_chain in Hin. rewrite succs_chain in Hl.
-      change ((b :: m') ++ [e]) with (b :: (m' ++ [e])) in Hin.
-      cbn [chain] in Hin.
-      assert (Hch : chain b (m' ++ [e]) = chain b m' ++ [(last m' b, e)]).
-      { rewrite chain_app. reflexivity. }
-      rewrite Hch in Hin.
-      replace (last (b :: m' ++ [e]) x) with e in Hin
-        by (change (b :: m' ++ [e]) with ((b :: m') ++ [e]); rewrite last_last; reflexivity).
-      apply in_app_or in Hin. destruct Hin as [[Heq|Hin]|[Heq|[]]].
-      * (* (x, b) *)
-        injection Heq as <- <-.
-        assert (Hbx : b <> x) by (intros ->; apply Hxnotin; left; reflexivity).
-        assert (Hbe : b <> e) by (intros ->; apply Hni'; right; left; reflexivity).
-        rewrite !upd_neq by (assumption || congruence). split; [exact Hn|exact Hpb].
-      * apply in_app_or in Hin. destruct Hin as [Hin|[Heq|[]]].
-        -- destruct (Hl u v) as [H1 H2].
-           { apply in_or_app. left. cbn [chain]. right. exact Hin. }
-           pose proof (chain_fst_not_last _ _ _ _ Hnd' Hin) as Hul.
-           apply chain_in in Hin. destruct Hin as [Hv Hu].
-           assert (Hue : u <> e) by (intros ->; apply Hni'; right; destruct Hu as [->|Hu]; [left; reflexivity|right; exact Hu]).
-           assert (Hvx : v <> x) by (intros ->; apply Hxnotin; right; exact Hv).
-           assert (Hve : v <> e) by (intros ->; apply Hni'; right; right; exact Hv).
-           rewrite !upd_neq by assumption. split; assumption.
-        -- injection Heq as <- <-. split; [apply upd_eq|].
-           rewrite upd_neq by assumption. apply upd_eq.
-      * (* (e, x) *)
-        injection Heq as <- <-. split; [|apply upd_eq].
-        rewrite upd_neq by congruence. apply upd_eq.
-Qed.
+(* the ghost search loops: first entry with the key among n entries from idx
+   following f; returns it, or the index the loop ends on *)
+Fixpoint rfind (r : rst) (k : N) (f : nat -> nat) (n : nat) (idx : nat) : option nat * nat :=
+  match n with
+  | 0 => (None, idx)
+  | S n' => if N.eqb (rkey r idx) k then (Some idx, idx) else rfind r k f n' (f idx)
+  end.
 
-(** [add_inflight]: the first in-flight entry points to itself; later ones
-    are linked before the head, i.e. appended in [next] order *)
-Lemma add_inflight_first nx pv e : linked (upd nx e e) (upd pv e e) [e].
-Proof.
-  split; [constructor; [intros []|constructor]|].
-  intros x y [Heq|[]]. injection Heq as <- <-. split; apply upd_eq.
-Qed.
+(* get_ghost_or_missed_entry *)
+Definition r_ghost_or_missed (r : rst) (k : N) (cs : rsearch)
+  : rres (rst * nat * list (nat * nat)) :=
+  match rfind r k (nx r) (ngprec r) (c_gprec cs) with
+  | (Some e, _) =>
+      let delta := if ngprec r <? ngprobe r then ngprobe r / ngprec r else 1 in
+      let r1 := rset_dprobe (if delta <? rdprobe r then rdprobe r - delta else 0) r in
+      match r_reclaim r1 cs with
+      | RFault f => RFault f
+      | ROk (r2, d, ev) =>
+          match ngprec r2 with
+          | 0 => RFault CounterUnderflow
+          | S n => ROk (r_reuse_ghost (rset_ngprec n (rset_data (upd (rdata r2) e d) r2)) e, e, ev)
+          end
+      end
+  | (None, eprec) =>
+      let cs1 := cs_set_eprec eprec cs in
+      match rfind r k (pv r) (ngprobe r) (c_gprobe cs1) with
+      | (Some e, _) =>
+          let delta := if ngprobe r <? ngprec r then ngprec r / ngprobe r else 1 in
+          let r1 := rset_dprobe (if rdprobe r + delta <? rcap r then rdprobe r + delta
+                                 else rcap r) r in
+          match r_reclaim r1 cs1 with
+          | RFault f => RFault f
+          | ROk (r2, d, ev) =>
+              match ngprobe r2 with
+              | 0 => RFault CounterUnderflow
+              | S n => ROk (r_reuse_ghost (rset_ngprobe n (rset_data (upd (rdata r2) e d) r2)) e, e, ev)
+              end
+          end
+      | (None, eprobe) => r_get_missed r k (cs_set_eprobe eprobe cs1)
+      end
+  end.
 
-Theorem add_inflight_append nx pv h l e :
-  linked nx pv (h :: l) -> ~ In e (h :: l) ->
-  linked (fst (add_entry_before nx pv e h)) (snd (add_entry_before nx pv e h)) (h :: l ++ [e]).
-Proof.
-  intros Hl Hni.
-  pose proof (add_entry_before_linked nx pv [] h l e Hl Hni) as H. cbn [app] in H.
-  apply linked_rot in H. exact H.
-Qed.
+(* the scanning loops of cache_get_entry_noref over n entries from idx
+   following f: the entry with the key, else the index the loop ends on, the
+   last unreferenced entry seen and their number *)
+Fixpoint rscan (r : rst) (k : N) (f : nat -> nat) (n : nat) (idx : nat)
+         (z : option nat) (nz : nat) : option nat * nat * option nat * nat :=
+  match n with
+  | 0 => (None, idx, z, nz)
+  | S n' =>
+      if N.eqb (rkey r idx) k then (Some idx, idx, z, nz)
+      else if rref r idx =? 0 then rscan r k f n' (f idx) (Some idx) (S nz)
+      else rscan r k f n' (f idx) z nz
+  end.
+
+(* cache_get_entry_noref *)
+Definition r_get_noref (r : rst) (k : N) : rres (rst * option nat * list (nat * nat)) :=
+  match rscan r k (nx r) (nprec r) (nx r (split r)) None 0 with
+  | (Some e, _, _, _) => ROk (r_reuse_cached r e, Some e, [])
+  | (None, gprec, zp, nzp) =>
+      match rscan r k (pv r) (nprobe r) (split r) None 0 with
+      | (Some e, _, _, _) =>
+          (* --cache->nprobe; ++cache->nprec; (the loop found it, so nprobe > 0) *)
+          ROk (r_reuse_cached (rset_nprec (S (nprec r)) (rset_nprobe (nprobe r - 1) r)) e, Some e, [])
+      | (None, gprobe, zq, nzq) =>
+          match rfind r k (nx r) (ninflight r) (inflight r) with
+          | (Some e, _) =>
+              ROk (rset_misses (rmisses r + 1)%N (rset_est (upd (rest r) e SPrec) r), Some e, [])
+          | (None, _) =>
+              let inuse := (nprec r - nzp) + (nprobe r - nzq) + ninflight r in
+              if rcap r <=? inuse then ROk (r, None, [])
+              else
+                match r_ghost_or_missed r k (mkrsearch gprec 0 zp nzp gprobe 0 zq nzq) with
+                | RFault f => RFault f
+                | ROk (r1, e, ev) => ROk (rset_misses (rmisses r1 + 1)%N r1, Some e, ev)
+                end
+          end
+      end
+  end.
+
+(* cache_get_entry + the caller *)
+Definition r_do_get (r : rst) (k : N) : rres (rst * ret * list (nat * nat)) :=
+  match r_get_noref r k with
+  | RFault f => RFault f
+  | ROk (r1, None, ev) => ROk (r1, RBusy, ev)
+  | ROk (r1, Some e, ev) =>
+      let r2 := rset_ref (upd (rref r1) e (S (rref r1 e))) r1 in
+      if estate_valid (rest r2 e) then
+        ROk (rset_plain (rplain r2 ++ [e]) r2, REntry e true, ev)
+      else
+        match rdata r2 e with
+        | None => RFault (RF NullBuffer)
+        | Some t =>
+            ROk (rset_content (upd (rcontent r2) t None) (rset_pend (rpend r2 ++ [e]) r2),
+                 REntry e false, ev)
+        end
+  end.
+
+(* cache_insert:
+     if (cache_entry_valid(entry)) return;
+     if (cache->ninflight--) { if (cache->inflight == idx) cache->inflight = entry->next;
+                               remove_entry(cache, entry); }
+     add_entry_after(cache, entry, idx, cache->split);
+     switch (entry->state) { case cs_probe: ++nprobe; split = idx; case cs_precious: ++nprec; }
+     entry->state = cs_valid; *)
+Definition r_do_insert (r : rst) (e : nat) : rres (rst * ret * list (nat * nat)) :=
+  let r0 := rset_plain (rplain r ++ [e]) (rset_pend (rm1 e (rpend r)) r) in
+  let r1 := match rdata r0 e with
+            | Some t => rset_content (upd (rcontent r0) t (Some (rkey r0 e))) r0
+            | None => r0
+            end in
+  if estate_valid (rest r1 e) then ROk (r1, RDone, [])
+  else
+    match ninflight r1 with
+    | 0 => RFault CounterUnderflow
+    | S n =>
+        let r2 := rset_ninflight n r1 in
+        let r3 := if inflight r2 =? e then rset_inflight (nx r2 e) r2 else r2 in
+        let r4 := r_add_after (r_remove r3 e) e (split r3) in
+        let r5 := match rest r4 e with
+                  | SProbe => rset_split e (rset_nprobe (S (nprobe r4)) r4)
+                  | _ => rset_nprec (S (nprec r4)) r4
+                  end in
+        ROk (rset_est (upd (rest r5) e Valid) r5, RDone, [])
+    end.
+
+(* cache_discard:
+     if (--entry->refcnt) return;  if (cache_entry_valid(entry)) return;
+     --cache->ninflight;
+     if (cache->inflight == idx) cache->inflight = entry->next;
+     remove_entry(cache, entry);
+     eprobe = cache->split; n = nprobe + ngprobe;
+     if (!n) cache->split = idx; else while (n--) eprobe = ce[eprobe].prev;
+     add_entry_after(cache, entry, idx, eprobe); *)
+Definition r_do_discard (r : rst) (e : nat) : rres (rst * ret * list (nat * nat)) :=
+  let r0 := rset_pend (rm1 e (rpend r)) r in
+  match rref r0 e with
+  | 0 => RFault (RF RefUnderflow)
+  | S c =>
+      let r1 := rset_ref (upd (rref r0) e c) r0 in
+      if negb (c =? 0) then ROk (r1, RDone, [])
+      else if estate_valid (rest r1 e) then ROk (r1, RDone, [])
+      else
+        match ninflight r1 with
+        | 0 => RFault CounterUnderflow
+        | S n =>
+            let r2 := rset_ninflight n r1 in
+            let r3 := if inflight r2 =? e then rset_inflight (nx r2 e) r2 else r2 in
+            let r4 := r_remove r3 e in
+            let cnt := nprobe r4 + ngprobe r4 in
+            let eprobe := chase (pv r4) cnt (split r4) in
+            let r5 := if cnt =? 0 then rset_split e r4 else r4 in
+            ROk (r_add_after r5 e eprobe, RDone, [])
+        end
+  end.
+
+(* cache_put_entry *)
+Definition r_do_put (r : rst) (e : nat) : rres (rst * ret * list (nat * nat)) :=
+  let r0 := rset_plain (rm1 e (rplain r)) r in
+  match rref r0 e with
+  | 0 => RFault (RF RefUnderflow)
+  | S c => ROk (rset_ref (upd (rref r0) e c) r0, RDone, [])
+  end.
+
+(* cleanup_entries: precious entries from ce[split].next following next, then
+   probed entries from split following prev *)
+Definition r_cleanup_list (r : rst) : list nat :=
+  walk (nx r) (nprec r) (nx r (split r)) ++ walk (pv r) (nprobe r) (split r).
+
+(* cache_flush:
+     for (i = 0; i < 2*cap; ++i) { next = i > 0 ? i-1 : n-1; prev = i < n-1 ? i+1 : 0;
+                                   refcnt = 0; data = i < cap ? buffer i : NULL; }
+     split = 0; counters = 0; *)
+Definition flush_nx (cap : nat) : nat -> nat := fun i => if i =? 0 then 2 * cap - 1 else i - 1.
+Definition flush_pv (cap : nat) : nat -> nat := fun i => if i <? 2 * cap - 1 then i + 1 else 0.
+
+Definition r_do_flush (r : rst) : rres (rst * ret * list (nat * nat)) :=
+  let ev := map (fun e => (e, rref r e)) (r_cleanup_list r) in
+  ROk (rset_nx (flush_nx (rcap r)) (rset_pv (flush_pv (rcap r)) (rset_split 0
+       (rset_nprec 0 (rset_ngprec 0 (rset_nprobe 0 (rset_ngprobe 0 (rset_dprobe 0
+       (rset_ninflight 0 (rset_ref (fun _ => 0) (rset_data (init_data (rcap r)) r)))))))))),
+       RDone, ev).
+
+(* cache_alloc: everything but next/prev/refcnt/data/counters is indeterminate
+   in C; the values are those of [CacheList.init] (the driver presets key and
+   state, and [inflight] is preset to 0) *)
+Definition rinit (cap : nat) : rst :=
+  mkrst (flush_nx cap) (flush_pv cap) 0 0 0 0 0 0 cap 0 0
+        (fun e => (3735879680 + N.of_nat e)%N) (fun _ => 0) (init_data cap)
+        (fun _ => Valid) 0%N 0%N [] [] (fun _ => None).
+
+Definition rstep (r : rst) (o : op) : rres (rst * ret * list (nat * nat)) :=
+  match o with
+  | Get k => r_do_get r k
+  | Insert e => r_do_insert r e
+  | Discard e => r_do_discard r e
+  | Put e => r_do_put r e
+  | Flush => r_do_flush r
+  end.
+
+(* the same slot addressing as [CacheList.resolve] *)
+Definition rresolve (r : rst) (o : sop) : option op :=
+  match o with
+  | SGet k => Some (Get k)
+  | SIns j => option_map Insert (pick (rpend r) j)
+  | SDis j => option_map Discard (pick (rpend r) j)
+  | SPut j => option_map Put (pick (rplain r) j)
+  | SFlush => match rpend r, rplain r with [], [] => Some Flush | _, _ => None end
+  end.
+
+Inductive rout :=
+| ROSkip
+| ROStep (o : op) (x : ret) (ev : list (nat * nat)) (r : rst)
+| ROFault (o : op) (f : rfault)
+| RODead.
+
+Fixpoint rrun_slots (r : rst) (ops : list sop) : list rout :=
+  match ops with
+  | [] => []
+  | o :: t =>
+      match rresolve r o with
+      | None => ROSkip :: rrun_slots r t
+      | Some o' =>
+          match rstep r o' with
+          | RFault f => ROFault o' f :: map (fun _ => RODead) t
+          | ROk (r1, x, ev) => ROStep o' x ev r1 :: rrun_slots r1 t
+          end
+      end
+  end.
+
+(** Histories *)
+Fixpoint rrun (r : rst) (ops : list op) : rres rst :=
+  match ops with
+  | [] => ROk r
+  | o :: t => match rstep r o with
+              | RFault f => RFault f
+              | ROk (r1, _, _) => rrun r1 t
+              end
+  end.
